@@ -56,3 +56,27 @@ pub fn run_c09() {
         }
     }
 }
+
+pub fn run_c01() {
+    // a reference / input / collateral whose expression cannot be coerced into UTxO refs
+    for which in ["reference", "input", "collateral"] {
+        let mut t = base_tx();
+        match which { "reference" => t.references.push(E::Number(5)), "input" => t.inputs.push(Input { name: "a".into(), utxos: E::Bool(true), redeemer: E::None }), _ => t.collateral.push(Collateral { utxos: E::Bytes(vec![1, 2]) }) }
+        let mut c = cm_compiler();
+        match c.compile(&AnyTir::V1Beta0(t)) {
+            Err(e) => println!("{which} with an uncoercible expression: Err({e})"),
+            Ok(x) => { let tx = MultiEraTx::decode(&x.payload).unwrap(); let b = &tx.as_conway().unwrap().transaction_body;
+                println!("{which} with an uncoercible expression: Ok: inputs={} reference_inputs={:?} collateral={:?}", b.inputs.len(), b.reference_inputs.as_ref().map(|x| x.len()), b.collateral.as_ref().map(|x| x.len())); }
+        }
+    }
+    // language level: a reference block whose `ref` is an integer
+    let tx = lower("party P; tx t() { reference r { ref: 5, } output { to: P, amount: Ada(2000000), } }", "t");
+    let a = addr(ADDR_A);
+    let args: BTreeMap<String, ArgValue> = BTreeMap::from([("p".to_string(), ArgValue::Address(a.clone()))]);
+    let tx = tx.apply_args(&args).unwrap().apply_fees(0).unwrap().reduce().unwrap();
+    let mut c = cm_compiler();
+    match c.compile(&AnyTir::V1Beta0(tx)) {
+        Err(e) => println!("language level: Err({e})"),
+        Ok(x) => { let tx = MultiEraTx::decode(&x.payload).unwrap(); let b = &tx.as_conway().unwrap().transaction_body; println!("language level `reference r {{ ref: 5, }}`: Ok, reference_inputs={:?}", b.reference_inputs.as_ref().map(|x| x.len())); }
+    }
+}
